@@ -15,35 +15,52 @@
 #include "post.h"
 
 #define NMAX ((size_t)1 << 40)
+#ifdef C17_NBOUND
+#define FOR_IDX(k, v) for (k = 0; k <= C17_NBOUND; k++) if (k == (v))
+#else
+#define FOR_IDX(k, v) k = (v);
+#endif
 
 void h_inc_aggregate(void) {
     secp256k1_context ctx;
-    INPUT(size_t, nb); INPUT(size_t, nnew); INPUT(size_t, alen); INPUT(size_t, gb); INPUT(uint64_t, wpos); INPUT(_Bool, oneshot);
+    INPUT(size_t, nb); INPUT(size_t, nnew); INPUT(size_t, alen); INPUT(size_t, gb); INPUT(size_t, gk); INPUT(uint64_t, wpos); INPUT(_Bool, oneshot);
     INPUT(_Bool, use_agg); INPUT(_Bool, use_len); INPUT(_Bool, use_pk); INPUT(_Bool, use_msgs); INPUT(_Bool, use_sigs);
-    unsigned char *aggsig, *msgs, *sigs; secp256k1_xonly_pubkey *pks; size_t n, len; int ret, wrap, big, misuse, toosmall;
+    unsigned char *aggsig, *msgs, *sigs; secp256k1_xonly_pubkey *pks; size_t n, len, k; int ret, wrap, big, misuse, toosmall;
     if (oneshot) __CPROVER_assume(nb == 0);
     __CPROVER_assume(alen <= 32 * (NMAX + 1));
 #ifdef C17_NBOUND
     __CPROVER_assume(nb <= C17_NBOUND && nnew <= C17_NBOUND - nb);   /* BOUNDED stand-in: loops unwound instead of closed by loop contracts */
 #endif
     n = nb + nnew; wrap = n < nb; big = (nb > NMAX || nnew > NMAX);   /* big: the length can never suffice, the arrays must not be touched */
-    INPUT_BUF(aggw, aggsig, alen, 96);
+#ifndef C17_NBOUND
+    INPUT_BUF(aggw, aggsig, alen, 64);
     pks = malloc((big || n == 0) ? 1 : n * sizeof(*pks)); msgs = malloc((big || n == 0) ? 1 : n * 32); sigs = malloc((big || nnew == 0) ? 1 : nnew * 64);
     __CPROVER_assume(pks != NULL && msgs != NULL && sigs != NULL);
+#else
+    /* BOUNDED stand-in: fixed-capacity objects (exact object sizes are what the unbounded unit C17.inc_aggregate uses); *aggsig_len <= capacity */
+    INPUT_ARR(unsigned char, aggbuf, 32 * (C17_NBOUND + 2)); INPUT_ARR(unsigned char, msgbuf, 32 * C17_NBOUND); INPUT_ARR(unsigned char, sigbuf, 64 * C17_NBOUND); INPUT_ARR(secp256k1_xonly_pubkey, pkbuf, C17_NBOUND);
+    __CPROVER_assume(alen <= sizeof(aggbuf));
+    aggsig = aggbuf; msgs = msgbuf; sigs = sigbuf; pks = pkbuf;
+#endif
     verif_ctx_init(&ctx); ctx.hash_ctx.fn_sha256_compression = secp256k1_sha256_transform;
     c17_init_n = 0; c17_mode = 1; c17_aggsig = aggsig; c17_msgs = msgs; c17_pks = pks; c17_sigs = sigs; c17_n = nnew; c17_nb = nb; g_gen_n = 0; c17_phase = 0;
     verif_c17_xo_n = 0; verif_c17_fin_n = 0; verif_c17_bad = 0; verif_c17_rej = 0; verif_c17_whit = 0;
     toosmall = (W(alen) < 32 * (W(nb) + W(nnew) + 1));
     verif_c17_gb = gb; verif_c17_gb_exp = 0;
-    if (!big && !wrap && !toosmall && gb < 32 * n) verif_c17_gb_exp = (gb / 32 < nb) ? aggsig[gb] : sigs[64 * (gb / 32 - nb) + gb % 32];
+    if (!big && !wrap && !toosmall && gb < 32 * n) { if (gb / 32 < nb) verif_c17_gb_exp = aggsig[gb]; else FOR_IDX(k, gb / 32 - nb) verif_c17_gb_exp = sigs[64 * k + gb % 32]; }
+    /* s_gk of the gk-th NEW signature, for the product wiring */
+    verif_c17_gk = gk; c17_exp_s = 0; c17_exp_r = 0; c17_exp_px = 0; c17_exp_py = 0;
+    if (!big && !wrap && !toosmall && gk < nnew) FOR_IDX(k, gk) c17_exp_s = be256(sigs + 64 * k + 32);
     verif_c17_wpos = wpos; verif_c17_wexp = 0;
     if (!big && !wrap && !toosmall && wpos >= 64 && wpos < 64 + 96 * (uint64_t)n) { size_t t = (wpos - 64) / 96, o = (wpos - 64) % 96;
-        verif_c17_wexp = o < 32 ? (t < nb ? aggsig[32 * t + o] : sigs[64 * (t - nb) + o]) : o < 64 ? pks[t].data[31 - (o - 32)] : msgs[32 * t + (o - 64)]; }
+        FOR_IDX(k, t) verif_c17_wexp = o < 32 ? (k < nb ? aggsig[32 * k + o] : sigs[64 * (k - nb) + o]) : o < 64 ? pks[k].data[31 - (o - 32)] : msgs[32 * k + (o - 64)]; }
     len = alen;
 
     if (oneshot) ret = secp256k1_schnorrsig_aggregate(&ctx, use_agg ? aggsig : NULL, use_len ? &len : NULL, use_pk ? pks : NULL, use_msgs ? msgs : NULL, use_sigs ? sigs : NULL, nnew);
     else ret = secp256k1_schnorrsig_inc_aggregate(&ctx, use_agg ? aggsig : NULL, use_len ? &len : NULL, use_pk ? pks : NULL, use_msgs ? msgs : NULL, use_sigs ? sigs : NULL, nb, nnew);
-    WITNESS_BUF(aggw, aggsig, alen, 96);
+#ifndef C17_NBOUND
+    WITNESS_BUF(aggw, aggsig, alen, 64);
+#endif
 
     __CPROVER_assert(ret == 0 || ret == 1, "C17 inc_aggregate: returns 0 or 1");
     __CPROVER_assert(g_error == 0, "C17 inc_aggregate: error callback never invoked");
@@ -72,7 +89,7 @@ void h_inc_aggregate(void) {
         if (nb == 1000 && nnew == 1000000 && gb == 32 * 1000 + 31 && wpos == 64 + 96 * 1000 + 3 && alen == 32 * (NMAX + 1)) REACH("inc_aggregate 1000 + 10^6, oversized buffer");
         if (nb == 5 && nnew == 0 && gb == 159) REACH("inc_aggregate nothing new");
 #else
-        if (nb == 1 && nnew == 2 && gb == 32 + 31 && wpos == 64 + 96 + 3 && alen == 32 * (NMAX + 1)) REACH("inc_aggregate 1 + 2, oversized buffer");
+        if (nb == 1 && nnew == 2 && gb == 32 + 31 && wpos == 64 + 96 + 3 && alen == 32 * (C17_NBOUND + 2) - 1) REACH("inc_aggregate 1 + 2, oversized buffer");
         if (nb == 2 && nnew == 0 && gb == 63) REACH("inc_aggregate nothing new");
 #endif
     } else {
